@@ -365,7 +365,7 @@ pub fn gen_case(rng: &mut Rng, len: usize, bias: &Bias) -> PairCase {
             POp::Provide { who, d0: if rng.chance(1, 40) { 0 } else { d0 }, d1, tol, receiver }
         } else if choice < 40 {
             let have = lp[who];
-            let a = match rng.below(6) { 0 => have, 1 => have / 2, 2 => 1, 3 => have.saturating_add(1), 4 => rng.below128(have + 1), _ => have / 3 + 1 };
+            let a = match rng.below(6) { 0 => have, 1 => have / 2, 2 => 1, 3 => have.saturating_add(1), 4 => rng.below128(have.saturating_add(1)), _ => have / 3 + 1 };
             POp::Withdraw { who, a }
         } else if choice < 80 {
             let dir = rng.chance(1, 2);
@@ -391,7 +391,7 @@ pub fn gen_case(rng: &mut Rng, len: usize, bias: &Bias) -> PairCase {
             POp::UpdateConfig { who: sender, new_owner, new_fees, toggles }
         } else if choice < 97 { POp::Donate { i: rng.chance(1, 2), z: magnitude(rng, 90) }
         } else if choice < 98 { POp::WithdrawDirect { who: 1 + rng.below(4) as usize, denom: rng.below(4) as usize, a: *rng.pick(&[0u128, 1, 500, 1000, 54772]) }
-        } else { let from = 1 + rng.below(5) as usize; POp::TransferLp { from, to: rng.below(6) as usize, a: rng.below128(lp[from.min(5)] + 2) } };
+        } else { let from = 1 + rng.below(5) as usize; POp::TransferLp { from, to: rng.below(6) as usize, a: rng.below128(lp[from.min(5)].saturating_add(2)) } };
         // deposit immediately followed by withdrawing the minted amount is generated by the executor feedback below
         // coarse tracking (exact values come from the run; this only keeps the stream mostly valid)
         match &op {
@@ -403,8 +403,8 @@ pub fn gen_case(rng: &mut Rng, len: usize, bias: &Bias) -> PairCase {
                 r[0] = r[0].saturating_add(*d0); r[1] = r[1].saturating_add(*d1);
             }
             POp::Withdraw { who, a } if *a <= lp[*who] && supply > 0 => {
-                for i in 0..2 { r[i] -= (Uint256::from(r[i]) * Uint256::from(*a) / Uint256::from(supply)).to_string().parse::<u128>().unwrap_or(0); }
-                lp[*who] -= *a; supply -= *a;
+                for i in 0..2 { r[i] = r[i].saturating_sub((Uint256::from(r[i]) * Uint256::from(*a) / Uint256::from(supply)).to_string().parse::<u128>().unwrap_or(0)); }
+                lp[*who] = lp[*who].saturating_sub(*a); supply = supply.saturating_sub(*a);
             }
             POp::Swap { dir, x, .. } => {
                 let (o, a) = if *dir { (1, 0) } else { (0, 1) };
